@@ -164,7 +164,15 @@ func interpolateMap[K comparable, V any, M ~map[K]V](tf stringTransformer, m M) 
 // interpolateOrderedMap applies interpolateAny over any type of ordered.Map.
 // The map is altered in-place.
 func interpolateOrderedMap[K comparable, V any](tf stringTransformer, m *ordered.Map[K, V]) error {
-	return m.Range(func(k K, v V) error {
+	// Interpolate every pair first, and only then update the map. Renaming a
+	// key in place while ranging could land on the original name of a pair
+	// that has not been visited yet, and Replace would delete that pair.
+	type pair struct {
+		oldk, newk K
+		newv       V
+	}
+	pairs := make([]pair, 0, m.Len())
+	if err := m.Range(func(k K, v V) error {
 		// We interpolate both keys and values.
 		intk, err := interpolateAny(tf, k)
 		if err != nil {
@@ -174,8 +182,18 @@ func interpolateOrderedMap[K comparable, V any](tf stringTransformer, m *ordered
 		if err != nil {
 			return err
 		}
-
-		m.Replace(k, intk, intv)
+		pairs = append(pairs, pair{oldk: k, newk: intk, newv: intv})
 		return nil
-	})
+	}); err != nil {
+		return err
+	}
+
+	// Re-insert all pairs in their original order under their new keys.
+	for _, p := range pairs {
+		m.Delete(p.oldk)
+	}
+	for _, p := range pairs {
+		m.Set(p.newk, p.newv)
+	}
+	return nil
 }
